@@ -190,7 +190,7 @@ def _sched_chunk(args):
 def replay_config(check, label, consts, gated=False):
     """run the replay configuration in TLC, replay every printed schedule"""
     c = dict(dict(MaxCalls=1), **dict(consts, ToggleAnytime='FALSE', RegisterAnytime='FALSE', RecHist='TRUE', Mutant='""'))
-    res = vlib.run_tlc('MC_C20', cfg='MC_C20_replay', constants=c, timeout=3000, heap='6g')
+    res = vlib.run_tlc('MC_C20', cfg='MC_C20_replay', constants=c, timeout=3000, heap='3g' if consts.get('MaxRegs', 0) + consts.get('MaxToggles', 0) == 0 else '6g')
     vlib.tlc_must_pass(res, 'MC_C20 replay ' + label)
     check.add_tlc(res, 'MC_C20 replay %s %s' % (label, consts))
     pool = [j['pool'] for j in res['json'] if 'pool' in j][0]
@@ -269,7 +269,7 @@ def _free_session(calls, plan, maxcache, star, regs, seed):
         for t in ts:
             t.start()
         for t in ts:
-            t.join(120)
+            t.join(1800)
             if t.is_alive():
                 raise vlib.MachineryError('free-running thread did not finish')
     finally:
@@ -411,11 +411,11 @@ def _main(check, tier, seed):
     code = ('import json,sys,vlib\n'
             'out=[]\n'
             'for consts in json.loads(sys.argv[1]):\n'
-            '    r=vlib.run_tlc("MC_C20", constants=consts, timeout=3000, heap="8g", workers=max(2, vlib.NCPU//2))\n'
+            '    r=vlib.run_tlc("MC_C20", constants=consts, timeout=3000, heap=sys.argv[2], workers=max(2, vlib.NCPU//2))\n'
             '    out.append({k: r[k] for k in ("ok","states","distinct","depth","violated","wall_s","rc")} | {"tail": r["out"][-25:], "coverage": {}})\n'
             'print("RESULT"+json.dumps(out))\n')
     import subprocess
-    bg = subprocess.Popen([sys.executable, '-c', code, json.dumps([dict(base, **c) for c in fine])],
+    bg = subprocess.Popen([sys.executable, '-c', code, json.dumps([dict(base, **c) for c in fine]), {'quick': '4g', 'thorough': '8g'}[tier]],
                           stdout=subprocess.PIPE, stderr=subprocess.PIPE, text=True)
     # 2. replay of every schedule on real threads
     if tier == 'quick':
@@ -453,7 +453,7 @@ def _main(check, tier, seed):
             raise vlib.MachineryError('TLC failed on MC_C20 %s (violated=%s):\n%s' % (consts, res['violated'], '\n'.join(res['tail'])))
         check.add_tlc(res, 'MC_C20 fine %s' % consts)
     # vacuity: every action / branch of the mechanism is taken (sequential fine-grained histories)
-    vres = vlib.run_tlc('MC_C20', cfg='MC_C20_replay', heap='6g', timeout=1200,
+    vres = vlib.run_tlc('MC_C20', cfg='MC_C20_replay', heap='3g', timeout=1200,
                         constants=dict(base, NProcs=1, MaxCalls=2, PoolSize=12, PoolFrom=1, MaxCache=0, MaxToggles=1, MaxRegs=1,
                                        Gates='{"yield","p","t"}', RecHist='TRUE'))
     vlib.tlc_must_pass(vres, 'MC_C20 vacuity')
